@@ -83,7 +83,9 @@ matching_node(const struct lyd_node *node1, const struct lyd_node *node2)
         struct lyd_node_opaq *onode1 = (struct lyd_node_opaq *)node1;
         struct lyd_node_opaq *onode2 = (struct lyd_node_opaq *)node2;
 
-        if ((onode1->name.name != onode2->name.name) || (onode1->name.prefix != onode2->name.prefix)) {
+        if ((onode1->name.name != onode2->name.name) || (onode1->name.prefix != onode2->name.prefix) ||
+                (onode1->name.module_ns != onode2->name.module_ns)) {
+            /* module_ns / module_name are members of a union, both are in the dictionary */
             return 0;
         }
     }
